@@ -1,2 +1,87 @@
-(* C19 — agent session.  Headline theorems (being filled in). *)
-From Pyro Require Import Model.Base Model.Session.
+(* C19 — agent session: each reported sample is uploaded exactly once, in ordered windows.
+   Headline theorems only.  All statements quantify over EVERY sequence of the fine-grained session events
+   (Model/Session.v): clock reading of the due decision, each sample callback's critical section, the reset at
+   the end of a tick, Stop — in any order, so every interleaving of the sampling goroutine with Stop() that
+   trieMutex allows (a tick overlapping Stop, ticks after Stop) is covered; any number of spies/profile types,
+   any stacks and counts, any clock readings (monotone or not) unless a hypothesis says otherwise.
+   Samples are compared as multisets: "exactly once" = for every stack the uploaded count equals the
+   reported count.
+   PARTIAL: wall clock, ticker and goroutine scheduling are sampled by the correspondence check.
+   NOTE (not a violation: the property bounds the window length from above only): Stop uploads the window
+   [time of the last reset, Truncate(stop time)], whose end lies BEFORE its start whenever the session stops in
+   the interval of its last reset — see [C19_stop_window_reversed]. *)
+From Pyro Require Import Model.Base Model.Session Proofs.SessionProofs.
+Open Scope Z_scope.
+
+(* at every moment: uploaded + still in the current trie = reported (non-cumulative profile types) *)
+Theorem C19_conservation : forall c t0 evs i k,
+  (i < nslots c)%nat -> pt_cumulative (type_of c i) = false ->
+  forall js s', s_run c (SStart t0 :: evs) (s_init c) = (js, s') ->
+  (sum_data k (jobs_of_slot i js) + cur k i s' = reported c k i evs)%N.
+Proof. exact session_conservation. Qed.
+Print Assumptions C19_conservation.
+
+(* every sample reported before Stop is uploaded exactly once; whatever is reported after Stop (callbacks that
+   were blocked on trieMutex while Stop ran, later ticks) goes into tries that are never uploaded: at most once *)
+Theorem C19_exactly_once_before_stop : forall c t0 pre ts post i k,
+  (i < nslots c)%nat -> pt_cumulative (type_of c i) = false -> no_stop pre = true ->
+  forall js s', s_run c (SStart t0 :: pre ++ SStop ts :: post) (s_init c) = (js, s') ->
+  sum_data k (jobs_of_slot i js) = reported c k i pre.
+Proof. exact exactly_once_before_stop. Qed.
+Print Assumptions C19_exactly_once_before_stop.
+
+(* nothing is uploaded twice / never more than reported, at any time *)
+Theorem C19_never_more_than_reported : forall c t0 evs i k,
+  (i < nslots c)%nat -> pt_cumulative (type_of c i) = false ->
+  forall js s', s_run c (SStart t0 :: evs) (s_init c) = (js, s') ->
+  (sum_data k (jobs_of_slot i js) <= reported c k i evs)%N.
+Proof. exact never_more_than_reported. Qed.
+Print Assumptions C19_never_more_than_reported.
+
+(* cumulative profile types (alloc_objects, alloc_space): the first upload is skipped and every job is the
+   clipped per-stack difference of two consecutive snapshots (C18_diff relates this to the byte-level trie) *)
+Theorem C19_cumulative_jobs_are_clipped_diffs : forall c evs s js s' i,
+  started s -> (i < length (ss_tries s))%nat -> pt_cumulative (type_of c i) = true ->
+  s_run c evs s = (js, s') ->
+  Forall (fun j => exists m q, uj_data j = ms_diff m q /\
+                   forall k, ms_get k (uj_data j) = (ms_get k m - ms_get k q)%N) (jobs_of_slot i js).
+Proof. exact cumulative_jobs_are_clipped_diffs. Qed.
+Print Assumptions C19_cumulative_jobs_are_clipped_diffs.
+
+(* names <application>.<profile type>, spy name, sample rate, units, aggregation type as configured; every
+   window ends on a multiple of the upload interval *)
+Theorem C19_jobs_named_and_aligned : forall c evs s js s',
+  0 < sc_interval c -> s_run c evs s = (js, s') -> Forall (job_ok c) js.
+Proof. exact jobs_named_and_aligned. Qed.
+Print Assumptions C19_jobs_named_and_aligned.
+
+(* each window starts no earlier than the previous one (of the same profile type) ended — unconditionally,
+   since /repo 628ae12 made reset() a no-op after Stop *)
+Theorem C19_windows_ordered : forall c t0 evs i,
+  (i < nslots c)%nat -> 0 < sc_interval c ->
+  forall js s', s_run c (SStart t0 :: evs) (s_init c) = (js, s') ->
+  ordered_from None (jobs_of_slot i js).
+Proof. exact windows_ordered. Qed.
+Print Assumptions C19_windows_ordered.
+
+(* windows are at most one interval long — hypothesis [timely]: every clock reading at which a window is cut
+   lies before the end of the interval following the one in which the window started (what tick gaps shorter
+   than the interval guarantee) *)
+Theorem C19_windows_at_most_one_interval : forall c evs s js s',
+  0 < sc_interval c -> timely c evs s -> s_run c evs s = (js, s') ->
+  Forall (fun j => uj_end j - uj_start j <= sc_interval c) js.
+Proof. exact windows_at_most_one_interval. Qed.
+Print Assumptions C19_windows_at_most_one_interval.
+
+Example C19_nonvacuous :
+  let '(js, s') := s_run ex_scfg (SStart 3 :: ex_sevs) (s_init ex_scfg) in
+  map (fun j => (uj_start j, uj_end j, uj_data j)) js =
+    [(3, 10, [([97%N], 1%N); ([98%N], 1%N); ([97%N], 2%N)]); (13, 20, [([99%N], 5%N)])] /\
+  timely ex_scfg (SStart 3 :: ex_sevs) (s_init ex_scfg) /\
+  cur [100%N] 0 s' = 7%N.
+Proof. exact ex_session_nonvacuous. Qed.
+
+Example ex_C19_stop_window_reversed :
+  let '(js, _) := s_run ex_scfg [SStart 3; SSample 0 [97%N] 1%N; SStop 7] (s_init ex_scfg) in
+  map (fun j => (uj_start j, uj_end j)) js = [(3, 0)].
+Proof. exact stop_window_reversed. Qed.
